@@ -4,7 +4,7 @@ from wiring import Profile
 
 MANIFEST = {
     "level": "proof",
-    "text": 'theorems: a named point receives exactly the registered component of that name or fails/stays untouched, never panics; names are unique; correspondence over name x type x kind products, and registration sequences against the real singleton registry (incl. components of distinct zero-size types and struct/first-field pairs that share an address and a name); the EXTENDED model (Model/FactoryX.v: Init methods that look components up, post-processors that short-circuit instantiation) carries every run-level invariant family as well (Proofs/FactoryX*.v, theorems *_extended) and is what the correspondence evaluates; scenarios end with Factory.GetComponents(), are restarted on the same App value, have another App started before or in the middle, and include crowds of 24..36 instances of one type; some ordinary components are also (do-nothing) factory or definition-registry post-processors that look at the registry, and named and unnamed instances of one type stand side by side; registration also at the quietest log level, where a duplicate is dropped instead of refused (register_all_q, c07_unique_names_quiet)',
+    "text": 'theorems: a named point receives exactly the registered component of that name or fails/stays untouched, never panics; names are unique; correspondence over name x type x kind products, and registration sequences against the real singleton registry (incl. components of distinct zero-size types and struct/first-field pairs that share an address and a name); the EXTENDED model (Model/FactoryX.v: Init methods that look components up, post-processors that short-circuit instantiation) carries every run-level invariant family as well (Proofs/FactoryX*.v, theorems *_extended) and is what the correspondence evaluates; scenarios end with Factory.GetComponents(), are restarted on the same App value, have another App started before or in the middle, and include crowds of 24..36 instances of one type; some ordinary components are also (do-nothing) factory or definition-registry post-processors that look at the registry, and named and unnamed instances of one type stand side by side, callbacks fail with the component in hand, func points name methods that take parameters, two instantiations of one generic type are registered under their default names; registration also at the quietest log level, where a duplicate is dropped instead of refused (register_all_q, c07_unique_names_quiet)',
     "design_ref": "DESIGN.md 5 C07, 4.3, Appendix A/D",
     "note": "trusted: Coq kernel + vm_compute; hand-written model (Model/Resolve.v, Factory.v, App.v) tied to the code by exact "
             "comparison of event log, wiring and lookups on generated scenarios; Python generator/Go code generator/wx runtime; "
